@@ -293,13 +293,16 @@ Proof.
   unfold Rmin, Rmax. destruct (Rle_dec f1 f2); nra.
 Qed.
 
+Lemma clamp_bounds' : forall lo hi t, lo <= hi -> lo <= Rmin (Rmax t lo) hi <= hi.
+Proof. intros. unfold Rmin, Rmax. destruct (Rle_dec t lo); destruct (Rle_dec _ hi); lra. Qed.
+
 Definition lyman_tables (freq temp : list R) (cdfs : list (list R)) : Prop :=
   (2 <= length freq)%nat /\ (2 <= length temp)%nat /\ length cdfs = length temp /\
   Rsorted freq /\ Rstrict temp /\ (forall r, In r cdfs -> length r = length freq).
 
-Lemma sample_lyman_range_lemma : forall freq temp cdfs T x, lyman_tables freq temp cdfs ->
+Lemma lyman_core_range : forall freq temp cdfs T x, lyman_tables freq temp cdfs ->
   nth 0 temp 0 <= T <= nth (length temp - 1) temp 0 ->
-  exists v, sample_lyman Rops freq temp cdfs T x = Some v /\ nth 0 freq 0 <= v <= nth (length freq - 1) freq 0.
+  exists v, lyman_core Rops freq temp cdfs T x = Some v /\ nth 0 freq 0 <= v <= nth (length freq - 1) freq 0.
 Proof.
   intros freq temp cdfs T x [Hnf [Hnt [Hlc [Hsf [Hst Hrows]]]]] [HT0 HT1].
   destruct (locate_in_spec T temp Hnt HT1) as [kT [Hk [Hkr [Hk1 Hk2]]]].
@@ -308,7 +311,7 @@ Proof.
   assert (R2 : length (nth (S kT) cdfs []) = length freq) by (apply Hrows, nth_In; lia).
   destruct (locate_in_total x (nth kT cdfs []) ltac:(lia)) as [i1 [Hi1 Hr1]].
   destruct (locate_in_total x (nth (S kT) cdfs []) ltac:(lia)) as [i2 [Hi2 Hr2]].
-  unfold sample_lyman. rewrite Hk, Hi1, Hi2. eexists. split; [reflexivity|].
+  unfold lyman_core. rewrite Hk, Hi1, Hi2. eexists. split; [reflexivity|].
   cbn [o_add o_sub o_mul o_div Rops]. rewrite !at_R.
   pose proof (lyman_mix_range (nth i1 freq 0) (nth i2 freq 0) (nth kT temp 0) (nth (S kT) temp 0) T
                 (Hst kT (S kT) ltac:(lia)) (conj HkT Hk2)) as [L1 L2].
@@ -316,6 +319,21 @@ Proof.
   pose proof (Hsf 0%nat i1 ltac:(lia)). pose proof (Hsf 0%nat i2 ltac:(lia)).
   pose proof (Hsf i1 (length freq - 1)%nat ltac:(lia)). pose proof (Hsf i2 (length freq - 1)%nat ltac:(lia)).
   unfold Rmin, Rmax in *. destruct (Rle_dec (nth i1 freq 0) (nth i2 freq 0)); lra.
+Qed.
+
+(* the code as shipped (no clamp): in range provided T is inside the temperature table *)
+Lemma sample_lyman_range_lemma : forall freq temp cdfs T x, lyman_tables freq temp cdfs ->
+  nth 0 temp 0 <= T <= nth (length temp - 1) temp 0 ->
+  exists v, sample_lyman Rops false freq temp cdfs T x = Some v /\ nth 0 freq 0 <= v <= nth (length freq - 1) freq 0.
+Proof. intros. unfold sample_lyman. apply lyman_core_range; assumption. Qed.
+
+(* with the temperature clamped to the table first: in range for EVERY temperature *)
+Lemma sample_lyman_clamped_range_lemma : forall freq temp cdfs T x, lyman_tables freq temp cdfs ->
+  exists v, sample_lyman Rops true freq temp cdfs T x = Some v /\ nth 0 freq 0 <= v <= nth (length freq - 1) freq 0.
+Proof.
+  intros freq temp cdfs T x Ht. unfold sample_lyman. apply lyman_core_range; [assumption|].
+  rewrite fmin_R, fmax_R, !at_R. destruct Ht as [_ [Hnt [_ [_ [Hst _]]]]].
+  apply clamp_bounds'. left. apply Hst. lia.
 Qed.
 
 (* D7: without "T inside the temperature table" the statement is false.  Witness: a 3-node frequency
@@ -351,15 +369,15 @@ Proof. unfold locate_in, locate. do 4 locate_step. reflexivity. Qed.
 Lemma w_loc_2 : locate_in Rops (7 / 10) [0; 1 / 2; 1] = Some 1%nat.
 Proof. unfold locate_in, locate. do 4 locate_step. reflexivity. Qed.
 
-Lemma sample_lyman_witness : sample_lyman Rops w_freq w_temp w_cdfs 500 (7 / 10) = Some (1 + (500 - 2000) * (2 - 1) / (3000 - 2000)).
+Lemma sample_lyman_witness : sample_lyman Rops false w_freq w_temp w_cdfs 500 (7 / 10) = Some (1 + (500 - 2000) * (2 - 1) / (3000 - 2000)).
 Proof.
-  unfold sample_lyman. rewrite w_loc_T. unfold w_cdfs. cbn [nth]. rewrite w_loc_1, w_loc_2.
+  unfold sample_lyman, lyman_core. rewrite w_loc_T. unfold w_cdfs. cbn [nth]. rewrite w_loc_1, w_loc_2.
   cbn [o_add o_sub o_mul o_div Rops]. rewrite !at_R. unfold w_freq, w_temp. cbn [nth]. reflexivity.
 Qed.
 
 Lemma sample_lyman_refuted_lemma : exists freq temp cdfs T x v, lyman_tables freq temp cdfs /\
   10 <= T <= 1000000000 /\ 1 / 10 ^ 10 <= x < 1 /\
-  sample_lyman Rops freq temp cdfs T x = Some v /\ v < nth 0 freq 0.
+  sample_lyman Rops false freq temp cdfs T x = Some v /\ v < nth 0 freq 0.
 Proof.
   exists w_freq, w_temp, w_cdfs, 500, (7 / 10). eexists. split; [exact w_tables|].
   split; [lra|]. split; [split; [|lra]|].
